@@ -110,7 +110,7 @@ KINDS = {
     "output": (mk_output, 2), "assign": (mk_assign, 2), "echo": (mk_echo, 2), "inline_comment": (mk_inline_comment, 2),
     "liquid": (mk_liquid, 2), "raw": (mk_raw, 4), "comment": (mk_comment, 4), "doc": (mk_doc, 4), "if": (mk_if, 4),
 }
-POOL = ["", " ", "\n", "a", " a ", "\n a\t\n", "a b", "\t \n"]
+POOL = ["", " ", "\n", "a", " a ", "\n a\t\n", "a b", "\t \n", chr(12) + " a" + chr(0xA0), chr(0x2003) + chr(11) + chr(10) + chr(0x85)]
 
 
 def text_sel(i):
@@ -129,7 +129,11 @@ def text_sel(i):
         return "\n a\t\n"
     if i == 6:
         return "a b"
-    return "\t \n"
+    if i == 7:
+        return "\t \n"
+    if i == 8:
+        return chr(12) + " a" + chr(0xA0)            # form feed ... no-break space
+    return chr(0x2003) + chr(11) + chr(10) + chr(0x85)   # em space, vertical tab, line feed, next line
 
 
 def render_src(env, src):
@@ -150,7 +154,7 @@ def _mk_real_single(kind):
 
     def f(s0: int, s1: int, l: bool, r: bool, i1: bool, i2: bool) -> bool:
         """
-        pre: 0 <= s0 <= 7 and 0 <= s1 <= 7
+        pre: 0 <= s0 <= 9 and 0 <= s1 <= 9
         post: _
         """
         if excluded("c10_real_" + kind, locals()):
@@ -170,7 +174,7 @@ def _mk_real_single(kind):
 
 def c10_real_short_comment(s0: int, s1: int, l: bool, r: bool) -> bool:
     """
-    pre: 0 <= s0 <= 7 and 0 <= s1 <= 7
+    pre: 0 <= s0 <= 9 and 0 <= s1 <= 9
     post: _
     """
     if excluded("c10_real_short_comment", locals()):
@@ -189,7 +193,7 @@ def _mk_real_pair(k1, k2):
 
     def f(s1: int, l1: bool, r1: bool, l2: bool, r2: bool, ia: bool, ib: bool) -> bool:
         """
-        pre: 0 <= s1 <= 7
+        pre: 0 <= s1 <= 9
         post: _
         """
         # text between two markups is stripped on the left by M1's closing hyphen and on the right by
@@ -248,7 +252,7 @@ def _mk_real_cpair(k1, k2):
 
     def f(s1: int, l1: bool, r1: bool, l2: bool, r2: bool, ia: bool, ib: bool) -> bool:
         """
-        pre: 0 <= s1 <= 7
+        pre: 0 <= s1 <= 9
         post: _
         """
         if excluded("c10_cpair_%s_%s" % (k1, k2), locals()):
